@@ -998,9 +998,49 @@ pub(crate) fn advance_replay_state<P: ProvenanceStore>(
 
     let root = *replayed.root();
     let mut last_entry = None;
+    // Chain link between consecutive entries: the same-lane parent of the entry at tick t
+    // must be the entry replayed immediately before it (append-time validation enforces
+    // this for the local store; replay re-verifies it for any store).
+    let mut previous_ref = match start_tick.as_u64().checked_sub(1) {
+        Some(raw) => Some(
+            provenance
+                .entry(worldline_id, WorldlineTick::from_raw(raw))?
+                .as_ref(),
+        ),
+        None => None,
+    };
     for raw_tick in start_tick.as_u64()..target_tick.as_u64() {
         let tick = WorldlineTick::from_raw(raw_tick);
         let entry = provenance.entry(worldline_id, tick)?;
+        if entry.worldline_id != worldline_id {
+            return Err(HistoryError::EntryWorldlineMismatch {
+                expected: worldline_id,
+                got: entry.worldline_id,
+            }
+            .into());
+        }
+        if entry.worldline_tick != tick {
+            return Err(HistoryError::TickGap {
+                expected: tick,
+                got: entry.worldline_tick,
+            }
+            .into());
+        }
+        let lane_parent = entry
+            .parents
+            .iter()
+            .find(|parent| parent.worldline_id == worldline_id)
+            .copied();
+        if lane_parent != previous_ref {
+            let parent = lane_parent.or(previous_ref).unwrap_or_else(|| entry.as_ref());
+            return Err(HistoryError::ParentCommitHashMismatch {
+                tick,
+                parent,
+                stored_commit_hash: previous_ref.map_or([0u8; 32], |prev| prev.commit_hash),
+            }
+            .into());
+        }
+        previous_ref = Some(entry.as_ref());
         let patch = entry
             .patch
             .as_ref()
@@ -1044,6 +1084,28 @@ pub(crate) fn advance_replay_state<P: ProvenanceStore>(
             .tick_history
             .push((snapshot, receipt, replay_patch));
         last_entry = Some(entry);
+    }
+
+    // The last applied entry is bound by its successor when the store holds one: the
+    // successor's same-lane parent must name exactly the entry just replayed.
+    if target_tick.as_u64() < provenance.len(worldline_id)? {
+        let successor = provenance.entry(worldline_id, target_tick)?;
+        let lane_parent = successor
+            .parents
+            .iter()
+            .find(|parent| parent.worldline_id == worldline_id)
+            .copied();
+        if lane_parent != previous_ref {
+            let parent = lane_parent
+                .or(previous_ref)
+                .unwrap_or_else(|| successor.as_ref());
+            return Err(HistoryError::ParentCommitHashMismatch {
+                tick: target_tick,
+                parent,
+                stored_commit_hash: previous_ref.map_or([0u8; 32], |prev| prev.commit_hash),
+            }
+            .into());
+        }
     }
 
     finalize_replay_metadata(replayed, target_tick, last_entry.as_ref());
